@@ -12,5 +12,8 @@ TEXT = {
  'C14': dict(level='The laws are TLA+ formulas (Laws.tla). TLC proves them for every ordered pair of the universe on the model, and the model\'s comparison / logic / inc-dec tables are bound to the implementation by replaying every case, so the laws hold on the implementation\'s tables over the same universe.',
              ref='DESIGN.md 5 C14', note='universe of 38 values (56 in the thorough tier); laws are vacuous where the model is undetermined (inexact numbers)',
              technique='TLA+ laws checked by TLC + table conformance replay'),
+ 'C12': dict(level='The lexer is a character-level TLA+ state machine (Lexer.tla, one action per match_loop arm). TLC checks, in every state of every text up to the bound over six alphabets (ASCII classes, multi-line literals with suffixes, one member of every non-ASCII class, numerals, blanks/line ends, short keywords), that tokens are ordered non-overlapping slices with ignorable gaps and true positions computed from the text alone; every text is replayed and the real token stream must equal the model\'s; recorded streams of long random texts are validated by TLC against LexTrace.tla. A self-test config re-creates the repaired stale-suffix defect and must be rejected.',
+             ref='DESIGN.md 5 C12', note='bounded text length (3-4 exhaustive, 5 thorough; 60-150 sampled); one representative per Unicode class',
+             technique='TLA+ lexer state machine, TLC invariants, replay + trace validation'),
 }
 NOT_YET = {}
